@@ -3,6 +3,7 @@ From Coq Require Import NArith List Bool.
 Import ListNotations.
 From CXV Require Import Gen.TokTy Parse.Balanced Parse.BalancedThms Parse.Declarator Parse.DeclSpec Parse.DeclThms Parse.DeclPins Parse.PQName Gen.ParserTables.
 From CXV Require Gen.PinsC02.
+From CXV Require Import Parse.TemplateArg.
 Open Scope N_scope.
 
 (* For every legal type tree t (wf: the C++ rules on pointers, references,
@@ -66,7 +67,36 @@ Proof. exact pqname_roundtrip. Qed.
 Theorem declarator_code_is_the_modelled_one : decl_sets_ok = true.
 Proof. exact decl_sets_ok_true. Qed.
 
-(* the functions the hand-written models above mirror (_parse_pqname, _parse_pqname_fundamental and _parse_pqname_name) are, token for
+(* Template arguments.  One argument's tokens, tried as a type-id the way
+   _parse_template_specialization does (base type, the pointer loop with
+   nonptr_fn set, an array suffix, nothing left before the end marker), decode
+   to exactly the type written -- for EVERY legal type tree, plain function
+   types `R(A, B)` included, any nesting. *)
+Theorem template_argument_type_decodes : forall t,
+  wf t -> ev (fun f => targ_type f (decl_toks t None)) (DOk (Some t)).
+Proof. exact targ_type_decodes. Qed.
+
+(* The argument list `< a1, a2..., a3 >`: every argument is reported once, in
+   order, as the kind it was written as -- a type-id as that type, tokens that do
+   not start like a type (any expression of the token-level grammar) as the raw
+   value -- each with its own pack flag; what follows the '>' is untouched. *)
+Theorem template_argument_list_decodes : forall args rest,
+  args <> [] -> Forall warg_ok args ->
+  ev (fun f => tspec (S (length args)) f [] (targs_toks args ++ ktok GT :: rest)) (DOk (map warg_out args, rest)).
+Proof. exact template_arguments_roundtrip. Qed.
+
+(* The pointer / cv / group loop for either value of nonptr_fn: whatever it
+   does from the point where only suffix layers are left, it does from the
+   start of the printed declarator (any layers, any accumulated type). *)
+Theorem cv_ptr_or_fn_either_flag : forall nf ls acc core rest dE rE,
+  legalL (kind_of acc) ls = true -> Forall layer_ok ls -> SNk core ->
+  stops (P (traill ls) core ++ rest) = true -> nolb rest = true ->
+  ev (fun f => cvptr_g nf f (wrap acc (mainl ls)) (P (traill ls) core ++ rest)) (DOk (dE, rE)) ->
+  stops rE = true ->
+  ev (fun f => cvptr_g nf f acc (P ls core ++ rest)) (DOk (dE, rE)).
+Proof. intros nf ls. exact (cvptr_P_gen nf (length ls) ls (le_n _)). Qed.
+
+(* the functions the hand-written models above mirror (_parse_pqname, _parse_pqname_fundamental, _parse_pqname_name and _parse_template_specialization) are, token for
    token of their syntax trees, the ones the models were written against: the
    translator recomputes the digests from the live code and produces Gen/PinsC02.v
    only when they match *)
@@ -95,4 +125,7 @@ Example c02_pqname_run :
   /\ parse_pqname (pn2_toks (PFund false [T_unsigned; T_long; T_int]) ++ [mkTk T_NAME 3])
   = DOk (mkPQ [] false [SFund [T_unsigned; T_long; T_int]], [mkTk T_NAME 3]).
 Proof. vm_compute. split; reflexivity. Qed.
+Print Assumptions template_argument_type_decodes.
+Print Assumptions template_argument_list_decodes.
+Print Assumptions cv_ptr_or_fn_either_flag.
 Print Assumptions modelled_functions_are_the_pinned_ones.
